@@ -32,6 +32,27 @@ CHECKS = {
         note="Exceptions compared by class; when a request both lacks an edge and violates ownership either status error is accepted. Seeded random long sequences are not used (the BFS reaches closure, so longer sequences add no new state).",
         design_ref="§2 C01",
     ),
+    "C02": dict(
+        engine="sched",
+        technique="stateless exploration of all schedules up to a deviation (preemption) bound under a controlled scheduler: source-line points in the in-memory backends, SQL-statement points for SQLite",
+        text="N pollers (claim through get_invocations_to_run, then run) plus recovery / kill / late-finisher actors on one shared backend; queues with a single id, a duplicated id, three ids (batch-routed), a blocking-priority entry. Every schedule with <= 2 deviations (N=2), <= 1 (N=3), 0 (N=4) is executed on the real code; a monitor on all status changes, deliveries and body enter/exit decides: no second claim without a release, only the owner moves PENDING/RUNNING work (recovery excepted), stored record = last change, no overlapping bodies without kill/recovery in between.",
+        note="Scheduling points only inside mem_orchestrator/mem_broker/mem_state_backend (memory) or at SQL statements (SQLite); other code touches thread-local data only. Background history writers run last (explored as actors in C10). Bounds, not randomised schedules, for N up to 4. SQLite's own atomicity trusted; busy handler emulated by blocking.",
+        design_ref="§2 C02",
+    ),
+    "C08": dict(
+        engine="bfs+sched",
+        technique="explicit-state BFS over broker operation histories against a deque on both brokers + exhaustive deviation-bounded schedule exploration of concurrent SQLite actors with a brute-force linearizability check",
+        text="Histories: BFS to depth 6 (8) over route / batch (repeated ids, empty) / retrieve / count / purge; result, count and the stored order are compared with a deque after every step on the in-memory and SQLite broker. Schedules: 2-3 SQLite actors (retrievers, routers, counter), one app object each, a scheduling point at every SQL statement, all schedules with <= 2 deviations (3 actors: 1); each execution's call/return history must be linearizable w.r.t. the deque and leave the deque's content.",
+        note="A batch route is judged as a sequence of single routings (the property does not promise atomic batches). julianday('now') is real time; ties broken by rowid.",
+        design_ref="§2 C08",
+    ),
+    "C10": dict(
+        engine="sched",
+        technique="stateless exploration of all schedules up to a deviation bound with the background history writers as independent scheduler threads; stored history compared with the monitor's list of successful changes",
+        text="The C02 worlds (claims, duplicate messages, batch registration, blocking path, pending/running recovery, kill, late finisher) with every history writer thread scheduled as an actor that by default runs arbitrarily late; all schedules with <= 1 deviation (single: 2; thorough +1). After the flush: per invocation, history sorted by time of change == list of successful changes (status, owner, acting runner, timestamp), starts at REGISTERED, ends at the current record, is a path of the frozen lifecycle graph.",
+        note="The monitor orders changes by the timestamp taken inside the atomic transition. Same scheduling-point placement as C02.",
+        design_ref="§2 C10",
+    ),
     "C12": dict(
         engine="enum",
         technique="exhaustive enumeration of (runner count, cycle, margin, epoch offset) x instants (grid + all slot boundaries +-1ulp) through the real can_run_atomic_service and should_run_atomic_service",
